@@ -322,9 +322,46 @@ def _len(ip, v):
   raise Unsupported("len() of %r" % (v,))
 
 
+def real_to_int_or_none(e):
+  if e.sort() == z3.IntSort():
+    return e
+  return I.real_to_int(z3.simplify(e))
+
+
+class SymRange(object):
+  """range(lo, hi) with symbolic bounds: not iterable (a loop over it would need an invariant), but convertible to a
+  GENERIC-ELEMENT array (np.asarray / tf.range): one element index, a fresh integer idx with lo <= idx < hi."""
+
+  def __init__(self, lo, hi):
+    self.lo, self.hi = lo, hi
+
+
+def generic_array(ip, lo, hi, lazy=False):
+  """lazy: the array may be empty (tf.range(a, b) with a >= b); the index bounds are then assumed only when the element is
+  selected (tf.concat picks a non-empty piece).  Until then the element is over-approximated (sound for proofs)."""
+  zi = lambda v: v.e if isinstance(v, SNum) else z3.IntVal(int(v))
+  lo_e, hi_e = zi(lo), zi(hi)
+  lo_e = real_to_int_or_none(lo_e)
+  hi_e = real_to_int_or_none(hi_e)
+  if lo_e is None or hi_e is None:
+    raise Unsupported("range over non-integer symbolic bounds")
+  idx = ip.fresh("idx", "int")
+  if not lazy:
+    ip.assume(z3.And(lo_e <= idx, idx < hi_e))
+  g = getattr(ip, "generic_indexes", None)
+  if g is None:
+    g = ip.generic_indexes = []
+  g.append((idx, lo_e, hi_e))
+  return SNum(idx, "tensor", None, {"ndarray": True, "shape": (SNum(hi_e - lo_e, "int"),), "generic_index": idx})
+
+
 def _range(ip, *a):
   if any(is_sym(x) for x in a):
-    raise Unsupported("range() with a symbolic bound (needs a loop invariant)")
+    if len(a) == 1:
+      return SymRange(0, a[0])
+    if len(a) == 2:
+      return SymRange(a[0], a[1])
+    raise Unsupported("range() with a symbolic step")
   if any(isinstance(x, (Term, Obj)) for x in a):
     raise Unsupported("range() with an opaque bound")
   try:
@@ -1103,6 +1140,8 @@ def _np_array(ip, v, dtype=None, **k):
     return Term("np.array", (v,))
   if isinstance(v, range):
     return [float(x) for x in v]
+  if isinstance(v, SymRange):
+    return generic_array(ip, v.lo, v.hi)
   raise Unsupported("np.array of %r" % (v,))
 
 
@@ -1668,7 +1707,11 @@ def _tf_multiply(ip, a, b):
 def _tf_range(ip, *a, **k):
   if all(conc(x) for x in a):
     return list(range(*[int(x) for x in a]))
-  raise Unsupported("tf.range with symbolic bound")
+  if len(a) == 1:
+    return generic_array(ip, 0, a[0], lazy=True)
+  if len(a) == 2:
+    return generic_array(ip, a[0], a[1], lazy=True)
+  raise Unsupported("tf.range with symbolic step")
 
 
 @model("tf.concat")
@@ -1680,6 +1723,26 @@ def _tf_concat(ip, vals, axis=0):
     return out
   if any(isinstance(v, Term) for v in vals):
     return Term("concat", tuple(vals), {"axis": axis})
+  if all(isinstance(v, SNum) for v in vals) and getattr(ip, "generic_indexes", None):
+    # generic-element arrays: the element under consideration lies in exactly one of the pieces (path split)
+    parts = getattr(ip, "concat_parts", None)
+    if parts is None:
+      parts = ip.concat_parts = []
+    def pick(i):
+      v = vals[i]
+      from z3 import z3util
+      names = {str(x) for x in z3util.get_vars(v.e)}
+      for n_, (idx, lo_e, hi_e) in enumerate(ip.generic_indexes):
+        if str(idx) in names:
+          ip.assume(z3.And(lo_e <= idx, idx < hi_e))      # the chosen piece is non-empty and idx ranges over it
+          parts.append(n_)
+          return v
+      parts.append(i)
+      return v
+    for i in range(len(vals) - 1):
+      if ip.truth(SBool(ip.fresh("concat_piece", "bool"))):
+        return pick(i)
+    return pick(len(vals) - 1)
   raise Unsupported("tf.concat")
 
 
@@ -1870,6 +1933,24 @@ def _re_match(ip, pat, s, *a):
     m = re.match(pat, s, *a)
     return None if m is None else _MatchObj(m)
   raise Unsupported("re.match symbolic")
+
+
+@model("re.search")
+def _re_search(ip, pat, s, *a):
+  if isinstance(s, str) and isinstance(pat, str):
+    import re
+    m = re.search(pat, s, *a)
+    return None if m is None else _MatchObj(m)
+  raise Unsupported("re.search symbolic")
+
+
+@model("re.fullmatch")
+def _re_fullmatch(ip, pat, s, *a):
+  if isinstance(s, str) and isinstance(pat, str):
+    import re
+    m = re.fullmatch(pat, s, *a)
+    return None if m is None else _MatchObj(m)
+  raise Unsupported("re.fullmatch symbolic")
 
 
 @model("re.compile")
